@@ -52,7 +52,7 @@ def run(ctx):
                 ctx.fail_closed('F-FLOAT.impl', '%s not found' % path)
                 continue
             callees = [mir.callee_path(tt) for _, tt in mir.iter_calls(inst['body'])]
-            codec = [c for c in callees if c and (c.startswith(l1.ENC) or c.startswith(DEC))]
+            codec = [c for c in callees if c and (c.startswith(l1.ENC) or c.startswith(DEC)) and c.split('::')[-1] not in ('ok', 'writer', 'writer_mut', 'position')]   # (non-emitting helpers do not count)
             if codec == [want]:
                 ctx.ok('F-FLOAT.impl', path)
             else:
